@@ -40,6 +40,13 @@ Definition c01_thm_scope (k : fk_case) : bool :=
              end
   end.
 
+(* cases that meet every hypothesis of the fixed-LIB theorems of C02-C04 (exclusive LIB, no handler failure) *)
+Definition fk_fixed_excl_scope (k : fk_case) : bool :=
+  match k_mode k, c_fail_at (k_cfg k) with
+  | LExcl r0, None => negb (c_incl (k_cfg k)) && filt_nu k && c01_fixed_scope_b r0 (k_hist k)
+  | _, _ => false
+  end.
+
 (* ---- C02 ---- *)
 Definition c02_in_scope (k : fk_case) : bool :=
   lib_established k && filt_nu k && filt_irr k && wf_b (k_hist k) && lib_ok_b (k_mode k) (k_hist k).
